@@ -267,6 +267,7 @@ int reproc_terminate(reproc_t *process)
   ENS("C06/reproc_terminate.after_exit_sends_nothing", IMPLIES(EXITED0, RV == 0 && OS_UNTOUCHED))
   ENS("C07/reproc_terminate.sends_sigterm_once", IMPLIES(RUNNING0, g.kill_calls == OLD(g.kill_calls) + 1 && IMPLIES(RV == 0, g.nsig == OLD(g.nsig) + 1 && IMPLIES(OLD(g.nsig) < 4, g.sig_log[OLD(g.nsig)] == SIGTERM))))
   ENS("C07/reproc_terminate.failure_sends_nothing", IMPLIES(RUNNING0 && RV != 0, RV < 0 && RV == -g.e.err && g.nsig == OLD(g.nsig)))
+  ENS("C14/reproc_terminate.invariant_kept", IMPLIES(process != NULL, INV(process)))
   ENS("C14/reproc_terminate.handle_and_ledger_unchanged", IMPLIES(process != NULL, HANDLE_UNCHANGED && INV(process)) && g.fds.open == OLD(g.fds.open) && g.fds.lib == OLD(g.fds.lib) && g.reaps == OLD(g.reaps) && g.wait_calls == OLD(g.wait_calls) && g.pl.poll_calls == OLD(g.pl.poll_calls))
   ;
 
@@ -278,6 +279,7 @@ int reproc_kill(reproc_t *process)
   ENS("C06/reproc_kill.after_exit_sends_nothing", IMPLIES(EXITED0, RV == 0 && OS_UNTOUCHED))
   ENS("C07/reproc_kill.sends_sigkill_once", IMPLIES(RUNNING0, g.kill_calls == OLD(g.kill_calls) + 1 && IMPLIES(RV == 0, g.nsig == OLD(g.nsig) + 1 && IMPLIES(OLD(g.nsig) < 4, g.sig_log[OLD(g.nsig)] == SIGKILL))))
   ENS("C07/reproc_kill.failure_sends_nothing", IMPLIES(RUNNING0 && RV != 0, RV < 0 && RV == -g.e.err && g.nsig == OLD(g.nsig)))
+  ENS("C14/reproc_kill.invariant_kept", IMPLIES(process != NULL, INV(process)))
   ENS("C14/reproc_kill.handle_and_ledger_unchanged", IMPLIES(process != NULL, HANDLE_UNCHANGED && INV(process)) && g.fds.open == OLD(g.fds.open) && g.fds.lib == OLD(g.fds.lib) && g.reaps == OLD(g.reaps) && g.wait_calls == OLD(g.wait_calls) && g.pl.poll_calls == OLD(g.pl.poll_calls))
   ;
 
@@ -343,6 +345,7 @@ int reproc_close(reproc_t *process, REPROC_STREAM stream)
   ENS("C14/reproc_close.bad_stream_is_einval", IMPLIES(process != NULL && P0(status) != ST_IN_CHILD && !(stream == REPROC_STREAM_IN || stream == REPROC_STREAM_OUT || stream == REPROC_STREAM_ERR), RV == -EINVAL && OS_UNTOUCHED && HANDLE_UNCHANGED))
   ENS("C02+C14/reproc_close.closes_exactly_that_stream", IMPLIES(process != NULL && P0(status) != ST_IN_CHILD && (stream == REPROC_STREAM_IN || stream == REPROC_STREAM_OUT || stream == REPROC_STREAM_ERR), RV == 0 && (stream == REPROC_STREAM_IN ? process->pipe.in : stream == REPROC_STREAM_OUT ? process->pipe.out : process->pipe.err) == -1 && g.fds.open == (OLD(g.fds.open) & ~MASK_OF(stream == REPROC_STREAM_IN ? P0(pipe.in) : stream == REPROC_STREAM_OUT ? P0(pipe.out) : P0(pipe.err))) && g.fds.lib == (OLD(g.fds.lib) & ~MASK_OF(stream == REPROC_STREAM_IN ? P0(pipe.in) : stream == REPROC_STREAM_OUT ? P0(pipe.out) : P0(pipe.err)))))
   ENS("C14/reproc_close.idempotent", IMPLIES(process != NULL && P0(status) != ST_IN_CHILD && (stream == REPROC_STREAM_IN ? P0(pipe.in) : stream == REPROC_STREAM_OUT ? P0(pipe.out) : stream == REPROC_STREAM_ERR ? P0(pipe.err) : -1) == -1, g.e.os_calls == OLD(g.e.os_calls)))
+  ENS("C14/reproc_close.invariant_kept", IMPLIES(process != NULL, INV(process)))
   ENS("C14/reproc_close.other_fields_kept", IMPLIES(process != NULL, INV(process) && process->status == P0(status) && process->handle == P0(handle) && process->pipe.exit == P0(pipe.exit) && process->deadline == P0(deadline) && (stream == REPROC_STREAM_IN || process->pipe.in == P0(pipe.in)) && (stream == REPROC_STREAM_OUT || process->pipe.out == P0(pipe.out)) && (stream == REPROC_STREAM_ERR || process->pipe.err == P0(pipe.err))))
   ENS("C06/reproc_close.no_process_effect", g.nsig == OLD(g.nsig) && g.reaps == OLD(g.reaps) && g.kill_calls == OLD(g.kill_calls) && g.wait_calls == OLD(g.wait_calls))
   ;
@@ -366,6 +369,7 @@ int reproc_read(reproc_t *process, REPROC_STREAM stream, uint8_t *buffer, size_t
   ENS("C02/reproc_read.stream_kept_open_otherwise", IMPLIES(RD_ARGS_OK && RV != -EPIPE, RD_PIPE == RD_PIPE0 && g.fds.open == OLD(g.fds.open) && g.fds.lib == OLD(g.fds.lib)))
   ENSX("C17/reproc_read.ewouldblock", IMPLIES(RD_ARGS_OK && RD_PIPE0 != -1 && g.rl.rd_ret < 0 && g.rl.rd_errno == EAGAIN, RV == REPROC_EWOULDBLOCK))
   ENSX("C17/reproc_read.nonblocking_never_sleeps", IMPLIES(process != NULL && P0(nonblocking), g.may_block == OLD(g.may_block)))
+  ENS("C14/reproc_read.invariant_kept", IMPLIES(process != NULL, INV(process)))
   ENS("C14/reproc_read.other_fields_kept", IMPLIES(process != NULL, INV(process) && process->status == P0(status) && process->handle == P0(handle) && process->pipe.in == P0(pipe.in) && process->pipe.exit == P0(pipe.exit) && process->deadline == P0(deadline) && (stream == REPROC_STREAM_OUT || process->pipe.out == P0(pipe.out)) && (stream == REPROC_STREAM_ERR || process->pipe.err == P0(pipe.err))))
   ENSX("C06/reproc_read.no_process_effect", g.nsig == OLD(g.nsig) && g.reaps == OLD(g.reaps) && g.kill_calls == OLD(g.kill_calls) && g.wait_calls == OLD(g.wait_calls))
   ;
@@ -385,6 +389,7 @@ int reproc_write(reproc_t *process, const uint8_t *buffer, size_t size)
   ENS("C02/reproc_write.stdin_kept_open_otherwise", IMPLIES(process != NULL && !(WR_ARGS_OK && buffer != NULL && RV == -EPIPE), process->pipe.in == P0(pipe.in) && g.fds.open == OLD(g.fds.open) && g.fds.lib == OLD(g.fds.lib)))
   ENS("C17/reproc_write.ewouldblock", IMPLIES(WR_ARGS_OK && buffer != NULL && P0(pipe.in) != -1 && g.wl.wr_ret < 0 && g.wl.wr_errno == EAGAIN, RV == REPROC_EWOULDBLOCK))
   ENS("C17/reproc_write.nonblocking_never_sleeps", IMPLIES(process != NULL && P0(nonblocking), g.may_block == OLD(g.may_block)))
+  ENS("C14/reproc_write.invariant_kept", IMPLIES(process != NULL, INV(process)))
   ENS("C14/reproc_write.other_fields_kept", IMPLIES(process != NULL, INV(process) && process->status == P0(status) && process->handle == P0(handle) && process->pipe.out == P0(pipe.out) && process->pipe.err == P0(pipe.err) && process->pipe.exit == P0(pipe.exit) && process->deadline == P0(deadline)))
   ENS("C06/reproc_write.no_process_effect", g.nsig == OLD(g.nsig) && g.reaps == OLD(g.reaps) && g.kill_calls == OLD(g.kill_calls) && g.wait_calls == OLD(g.wait_calls))
   ;
